@@ -468,7 +468,7 @@ def evaluate(prop, cases, tag, need_model=True):
             o = "false"
         exprs.append(m)
         exprs.append('if (%s) then "OK" else "FAIL"' % o)
-    res, errs = coq_eval(prop.COQ_IMPORTS, exprs, tag, shard=getattr(prop, "COQ_SHARD", 400))
+    res, errs = coq_eval(prop.COQ_IMPORTS, exprs, tag, shard=getattr(prop, "COQ_SHARD", 400), timeout=getattr(prop, "COQ_TIMEOUT", 1800))
     oc.errors += errs
     for i in range(len(cases)):
         if i not in impl:
